@@ -42,6 +42,7 @@ def run(ctx: Ctx, rep: Report) -> None:
     rep.rule("C10-R5", "RFC 3414 A.2 key derivation constants and localisation", floor=5)
     rep.rule("C10-R6", "incoming digest over the received bytes or a canonical (minimal-length) re-serialisation", floor=4)
     rep.rule("C10-R7", "an authentic message is accepted", floor=1)
+    rep.rule("C10-R8", "the re-serialisation used for the incoming digest reproduces every received field: decoders and encoders agree and decoding is lossless (shared with C06-R3)", floor=8)
     rep.assumptions += [
         "hashlib / hmac implement MD5, SHA-1 and HMAC (hash arithmetic is not analysed)",
         "x690 encodes content octets deterministically; only the length form is analysed",
@@ -156,7 +157,7 @@ def run(ctx: Ctx, rep: Report) -> None:
                 return True
             return None
 
-        outs = simulate(cfg, disco_env)
+        outs = simulate(cfg, disco_env, expand=edefs.expand)
         ok = tn is not None and gn is not None and bool(outs)
         for o in outs:
             ids = [t.id for t in o.trail]
@@ -295,6 +296,11 @@ def run(ctx: Ctx, rep: Report) -> None:
         ok = bool(outs) and all(o.kind in ("return", "fallthrough") for o in outs)
         rep.check(ok, "C10-R7", fn.site(), "a message whose digest verifies (auth flag set, auth credentials) is accepted on every path", f"{outs}", key=f"{fn.key}|authentic-refused")
     check_length_encoder(ctx, rep)
+    from . import c06
+
+    sub = Report(rep.prop, rep.tier)
+    c06.run(ctx, sub)
+    rep.adopt_rules(sub, "C10-R8", ["C06-R3"])
 
 
 def check_derivation(ctx: Ctx, rep: Report, outer: FuncInfo, fn: FuncInfo) -> None:
@@ -453,6 +459,28 @@ def eval_pred(ctx: Ctx, fn: FuncInfo, expr: ast.AST, subject: str, cls: ClassInf
         if coll is None or not all(isinstance(c, ClassInfo) for c in coll):
             return None
         return any(ctx.r.is_subclass(cls, c) for c in coll)
+    if isinstance(expr, ast.Attribute):
+        t = norm(expr)
+        for attr_prefix in (f"{subject}.", f"type({subject}).", f"{subject}.__class__."):
+            if t.startswith(attr_prefix) and t[len(attr_prefix):].isidentifier():
+                try:
+                    return bool(ctx.r.class_const(cls, t[len(attr_prefix):]))
+                except NotConstant:
+                    return None
+        return None
+    if isinstance(expr, ast.Call) and isinstance(expr.func, ast.Name) and expr.func.id in ("bool", "getattr") and expr.args:
+        if expr.func.id == "bool":
+            return eval_pred(ctx, fn, expr.args[0], subject, cls)
+        if len(expr.args) >= 2 and norm(expr.args[0]) == subject and isinstance(expr.args[1], ast.Constant):
+            try:
+                return bool(ctx.r.class_const(cls, expr.args[1].value))
+            except NotConstant:
+                if len(expr.args) == 3:
+                    try:
+                        return bool(ctx.r.const(fn.module, expr.args[2]))
+                    except NotConstant:
+                        return None
+                return None
     if isinstance(expr, ast.Compare) and len(expr.ops) == 1:
         left, right = expr.left, expr.comparators[0]
 
